@@ -29,6 +29,10 @@ pub struct Test {
     pub child2: Vec<String>,
     /// nested test executed inside the subshell
     pub nested: Option<Box<Test>>,
+    /// the whole test runs inside a function (local variables, the
+    /// function's positional parameters)
+    #[serde(default)]
+    pub in_function: bool,
 }
 
 #[derive(Clone, Debug, Serialize, Deserialize)]
@@ -92,6 +96,12 @@ fn gen_test(rng: &mut Rng, n: &mut u32, id: &mut u32, depth: u32) -> Test {
     } else {
         None
     };
+    let in_function = rng.below(4) == 0;
+    let mut pre = pre;
+    if in_function {
+        *n += 1;
+        pre.insert(0, format!("typeset lv{}=local{}", *n, *n));
+    }
     Test {
         id: my,
         kind,
@@ -99,6 +109,7 @@ fn gen_test(rng: &mut Rng, n: &mut u32, id: &mut u32, depth: u32) -> Test {
         child,
         child2,
         nested,
+        in_function,
     }
 }
 
@@ -122,6 +133,14 @@ fn join(m: &[String]) -> String {
 }
 
 fn render_test(t: &Test, out: &mut String) {
+    if t.in_function {
+        let mut body = String::new();
+        let mut plain = t.clone();
+        plain.in_function = false;
+        render_test(&plain, &mut body);
+        out.push_str(&format!("tf{}() {{\n{}}}\ntf{} fa{} fb{}\n", t.id, body, t.id, t.id, t.id));
+        return;
+    }
     let k = t.id;
     out.push_str(&join(&t.pre));
     out.push_str(&format!("snap B{k}\n"));
